@@ -33,6 +33,22 @@ theorem C01_F_enumForeignConst_witness :
     c01Model { c01Pkg false ['C'] [tspec ['C', 'A'] ['C'] 1] with locals := [[tspec ['t', 'm', 'p'] ['C'] 7]] } = (0, true, false) := by
   decide
 
+/-- `type Format int; const ( json Format = iota; xml )` with -json: the constant collides with the import -/
+theorem C01_F_enumIdentClash_witness :
+    c01Region { c01Pkg false ['F'] [tspec ['j', 's', 'o', 'n'] ['F'] 0, tspec ['x', 'm', 'l'] ['F'] 1] with
+                json := true, idents := [['j', 's', 'o', 'n'], ['x', 'm', 'l'], ['F']] } = "F_enumIdentClash" ∧
+    (c01Model { c01Pkg false ['F'] [tspec ['j', 's', 'o', 'n'] ['F'] 0, tspec ['x', 'm', 'l'] ['F'] 1] with
+                json := true, idents := [['j', 's', 'o', 'n'], ['x', 'm', 'l'], ['F']] }).2.2 = false := by decide
+
+/-- `type Axis int; const ( x Axis = iota; y )`: the guard function's own `x` hides the constant -/
+theorem C01_F_enumIdentClash_x_witness :
+    c01Region { c01Pkg false ['A'] [tspec ['x'] ['A'] 0, tspec ['y'] ['A'] 1] with idents := [['x'], ['y'], ['A']] } = "F_enumIdentClash" := by
+  decide
+
+/-- without -json the constant `json` is harmless -/
+example : c01Region { c01Pkg false ['F'] [tspec ['j', 's', 'o', 'n'] ['F'] 0, tspec ['x', 'm', 'l'] ['F'] 1] with
+                idents := [['j', 's', 'o', 'n'], ['x', 'm', 'l'], ['F']] } = "WF" := by decide
+
 /-- negative constants are ordinary since /repo 9f224b6 -/
 example : c01Region (c01Pkg false ['C'] [tspec ['C', 'A'] ['C'] (-1), tspec ['C', 'B'] ['C'] 3]) = "WF" ∧
     c01Model (c01Pkg false ['C'] [tspec ['C', 'A'] ['C'] (-1), tspec ['C', 'B'] ['C'] 3]) = (0, true, true) := by decide
@@ -40,5 +56,155 @@ example : c01Region (c01Pkg false ['C'] [tspec ['C', 'A'] ['C'] (-1), tspec ['C'
 /-- and a plain package is in WF with an all-ok prediction -/
 example : c01Region (c01Pkg false ['F'] [tspec ['F', 'A'] ['F'] 1, tspec ['F', 'B'] ['F'] 2]) = "WF" ∧
     c01Model (c01Pkg false ['F'] [tspec ['F', 'A'] ['F'] 1, tspec ['F', 'B'] ['F'] 2]) = (0, true, true) := by decide
+
+/-! ## closedness of the enum template instance
+
+A hand transcription of internal/enumer/enumer.tmpl as a def/use listing: for every top-level
+declaration the emitted file contains under a flag set, what it declares, which names it binds
+locally (receiver, parameters, `:=` / `var` variables) and which identifiers it mentions, each with
+the scope it is meant to resolve in.  Keywords and field / method selectors on imported packages
+(`fmt.Sprintf`) are not identifiers of their own.  The listing is tied to the template by the C01
+correspondence leg (the emitted files are compiled), not by a theorem. -/
+
+inductive IdClass where
+  | table      -- `_<t>` ++ name: a table of the emitted file
+  | method     -- a method of the enum type declared by the emitted file
+  | typeT      -- the enum type itself (input package)
+  | imp        -- the qualifier of an imported package
+  | builtin    -- predeclared identifier
+  | loc        -- receiver / parameter / local variable of the same declaration
+  deriving DecidableEq, Repr
+
+structure Ref where
+  cls : IdClass
+  name : String
+  deriving DecidableEq, Repr
+
+structure TopDecl where
+  tables : List String := []      -- tables it declares
+  methods : List String := []     -- methods it declares
+  binds : List String := []
+  uses : List Ref := []
+  /-- mentions every listed constant of the input package (`Name`) -/
+  usesConsts : Bool := false
+  deriving Repr
+
+structure EFlags where
+  bit : Bool
+  json : Bool
+  text : Bool
+  sql : Bool
+  gorm : Bool
+  deriving DecidableEq, Repr
+
+private def tb (n : String) : Ref := ⟨.table, n⟩
+private def me (n : String) : Ref := ⟨.method, n⟩
+private def im (n : String) : Ref := ⟨.imp, n⟩
+private def bi (n : String) : Ref := ⟨.builtin, n⟩
+private def lo (n : String) : Ref := ⟨.loc, n⟩
+private def ty : Ref := ⟨.typeT, "T"⟩
+
+/-- the emitted file; `r` stands for the receiver name (first letter of the type, lower case) -/
+def emittedDecls (fl : EFlags) : List TopDecl :=
+  [ -- func _() { var x [1]struct{}; _ = x[Name-value] … }
+    { binds := ["x"], uses := [lo "x"], usesConsts := true },
+    { tables := ["_max"], usesConsts := true },                                     -- const _t_max = A | B | …
+    { tables := ["_values"], uses := [ty], usesConsts := true },                    -- var _t_values = []T{…}
+    { tables := ["_strings"], uses := [bi "string"] },                              -- var _t_strings = []string{…}
+    { tables := ["_string_map"], uses := [ty, bi "string"], usesConsts := true },   -- map[T]string{Name: "…"}
+    { tables := ["_value_map"], uses := [bi "string", ty], usesConsts := true },    -- map[string]T{"…": Name}
+    -- func (r T) String() string
+    { methods := ["String"], binds := ["r", "str", "ok"] ++ (if fl.bit then ["buf", "r_", "i_", "v_"] else []),
+      uses := [ty, bi "string", lo "str", lo "ok", tb "_string_map", lo "r", tb "_max", im "fmt"]
+        ++ (if fl.bit then [im "bytes", lo "buf", lo "r_", lo "i_", bi "len", tb "_values", lo "v_", me "Has",
+                            tb "_map", me "Remove", bi "string"] else []) },
+    { methods := ["Values"], binds := ["r"], uses := [ty, tb "_values"] },
+    { methods := ["Strings"], binds := ["r"], uses := [ty, bi "string", tb "_strings"] },
+    { methods := ["IsValid"], binds := ["r", "ok"], uses := [ty, bi "bool", tb "_string_map", lo "r", lo "ok"] },
+    { methods := ["ValueMap"], binds := ["r"], uses := [ty, bi "string", tb "_value_map"] },
+    { methods := ["StringMap"], binds := ["r"], uses := [ty, bi "string", tb "_string_map"] } ]
+  ++ (if fl.json then
+    [ { methods := ["MarshalJSON"], binds := ["r"], uses := [ty, bi "byte", bi "error", im "json", lo "r", me "String"] },
+      { methods := ["UnmarshalJSON"], binds := ["r", "data", "s_", "v_", "err"],
+        uses := [ty, bi "byte", bi "error", bi "string", im "json", lo "data", lo "s_", lo "v_", lo "err", im "fmt",
+                 im "shoot", lo "r", bi "nil"] } ] else [])
+  ++ (if fl.text then
+    [ { methods := ["MarshalText"], binds := ["r"], uses := [ty, bi "byte", bi "error", lo "r", me "String", bi "nil"] },
+      { methods := ["UnmarshalText"], binds := ["r", "text", "v_", "err"],
+        uses := [ty, bi "byte", bi "error", bi "string", lo "text", lo "v_", lo "err", im "shoot", lo "r", bi "nil"] } ] else [])
+  ++ (if fl.sql then
+    [ { methods := ["Value"], binds := ["r"], uses := [ty, im "driver", bi "error", lo "r", me "String", bi "nil"] },
+      { methods := ["Scan"], binds := ["r", "value", "data", "ok", "e_", "err"],
+        uses := [ty, bi "error", bi "byte", bi "string", lo "value", lo "data", lo "ok", im "errors", lo "e_", lo "err",
+                 im "shoot", lo "r", bi "nil"] } ] else [])
+  ++ (if fl.gorm then
+    [ { methods := ["GormDataType"], binds := ["r"], uses := [ty, bi "string"] },
+      { methods := ["GormDBDataType"], binds := ["r", "db", "field"], uses := [ty, bi "string", im "gorm", im "schema"] } ] else [])
+  ++ (if fl.bit then
+    [ { methods := ["Has"], binds := ["r", "flag"], uses := [ty, bi "bool", lo "r", lo "flag"] },
+      { methods := ["Add"], binds := ["r", "flag"], uses := [ty, lo "r", lo "flag"] },
+      { methods := ["Remove"], binds := ["r", "flag"], uses := [ty, lo "r", lo "flag"] } ] else [])
+  ++ [ { methods := ["ShootEnum"], binds := ["r"], uses := [ty] } ]
+
+/-- the import list of the emitted file: what the template writes under the flags, plus the std-lib
+    packages goimports adds for the qualifiers the template uses without importing them -/
+def importList (fl : EFlags) : List String :=
+  (if fl.json then ["json"] else []) ++ (if fl.sql then ["driver"] else [])
+    ++ (if fl.json || fl.text || fl.sql then ["shoot"] else []) ++ (if fl.gorm then ["gorm", "schema"] else [])
+    ++ ["fmt", "bytes", "errors"]
+
+def predeclared : List String := ["string", "bool", "byte", "error", "len", "nil"]
+
+def declaredTables (fl : EFlags) : List String := (emittedDecls fl).flatMap (·.tables)
+def declaredMethods (fl : EFlags) : List String := (emittedDecls fl).flatMap (·.methods)
+
+/-- does the reference resolve: in the file, the declaration itself, the import list, the universe -/
+def Ref.closedIn (fl : EFlags) (d : TopDecl) (r : Ref) : Bool :=
+  match r.cls with
+  | .table => (declaredTables fl).contains r.name
+  | .method => (declaredMethods fl).contains r.name
+  | .typeT => true
+  | .imp => (importList fl).contains r.name
+  | .builtin => predeclared.contains r.name
+  | .loc => d.binds.contains r.name
+
+/-- every identifier the emitted file mentions is declared by the file, by the input package (the
+    enum type; the listed constants, given that they are package-level constants: `listed ⊆ pkg`),
+    by the import list, or predeclared — for every flag set without -bit, every type and every
+    constant table -/
+theorem C01_closed_enum (fl : EFlags) (hbit : fl.bit = false) (listed pkg : List Const)
+    (hl : ∀ c ∈ listed, c ∈ pkg) :
+    (emittedDecls fl).all (fun d => d.uses.all (Ref.closedIn fl d) && (!d.usesConsts || listed.all (pkg.contains ·))) = true := by
+  have hc : listed.all (pkg.contains ·) = true := by
+    rw [List.all_eq_true]; intro c hc; simpa using hl c hc
+  obtain ⟨bit, json, text, sql, gorm⟩ := fl
+  simp only at hbit
+  subst hbit
+  rw [hc]
+  cases json <;> cases text <;> cases sql <;> cases gorm <;> decide
+
+/-- with -bit exactly one reference does not resolve: the table `_<t>_map` read by String() -/
+theorem C01_closed_enum_bit (fl : EFlags) (hbit : fl.bit = true) :
+    ((emittedDecls fl).flatMap (fun d => d.uses.filter (fun r => !Ref.closedIn fl d r))) = [⟨.table, "_map"⟩] := by
+  obtain ⟨bit, json, text, sql, gorm⟩ := fl
+  simp only at hbit
+  subst hbit
+  cases json <;> cases text <;> cases sql <;> cases gorm <;> decide
+
+/-- no name is declared twice: the five tables, the methods under every flag set, and no local name
+    is bound twice in a declaration; under WF the map literals have pairwise distinct keys (see
+    `C04_generates` / `compiles`) -/
+theorem C01_nodup_enum (fl : EFlags) :
+    (declaredTables fl).Nodup ∧ (declaredMethods fl).Nodup ∧ (emittedDecls fl).all (fun d => decide d.binds.Nodup) = true := by
+  obtain ⟨bit, json, text, sql, gorm⟩ := fl
+  cases bit <;> cases json <;> cases text <;> cases sql <;> cases gorm <;> decide
+
+/-- the map keys: the listed constants' values (keys of `_t_string_map`) and trimmed names (keys of
+    `_t_value_map`) are pairwise distinct exactly when the model's compile check passes on that count -/
+theorem C01_nodup_enum_keys (T : Name) (pkg cs : List Const) (h : compiles false T pkg cs = true) :
+    (valuesT cs).Nodup ∧ (stringsT T cs).Nodup := by
+  unfold compiles at h
+  simp only [Bool.and_eq_true, decide_eq_true_eq] at h
+  exact ⟨h.1.1.1, h.1.1.2⟩
 
 end ShootVerif.Enum
